@@ -1756,7 +1756,9 @@ pub fn run(ctx: &mut Ctx, _args: &Args) {
         "mapping entries are wildcard entries (empty subset definition), selected with SubsetDefinition::all()".into(),
     ];
     let thorough = ctx.tier.is_thorough();
-    let total = ctx.tier.pick(16 * 420, 16 * 4200);
+    // VF_C18_DIRECTED_ONLY=1: only the hand-built corner cases (reproducers of the known findings)
+    let directed_only = std::env::var("VF_C18_DIRECTED_ONLY").is_ok();
+    let total = if directed_only { 0 } else { ctx.tier.pick(16 * 420, 16 * 4200) };
     let seed = ctx.seed;
     for i in 0..total {
         if !ctx.mine(i) {
